@@ -347,6 +347,19 @@ m('sync_only_change_pop_back', SU + 'node/algo/bfs.rs', '''        while let Som
                 if self.method.exec(&edge) {
                     let v = edge.target().clone();''', [['C15', 'SIB'], ['C04', 'BFS1']])
 
+m('path_nodes_start_at_first_target', D + 'node/algo/path.rs', """                    self.position += 1;
+                    return Some(edge.0.clone());""", """                    self.position += 1;
+                    return Some(edge.1.clone());""", [['C04', 'PATH'], ['C09', 'PATH']])
+m('path_last_node_source', SU + 'node/algo/path.rs', """        self.edges.last().map(|e| &e.1)""", """        self.edges.last().map(|e| &e.0)""", [['C06', 'PATH']])
+m('adjacent_get_shifted', D + 'node/adjacent.rs', """        self.inbound.get(idx).map(|edge| (&edge.0, &edge.1))""", """        self.inbound.get(idx + 1).map(|edge| (&edge.0, &edge.1))""", [['C01', 'ADJ-PRIM'], ['C03', 'ADJ-PRIM']])
+m('adjacent_find_value_of_first', U + 'node/adjacent.rs', """    pub fn find_inbound(&self, node: &K) -> Option<(&WeakNode<K, N, E>, &E)> {
+        for edge in self.inbound.iter() {
+            if edge.0.upgrade().unwrap().key() == node {
+                return Some((&edge.0, &edge.1));""", """    pub fn find_inbound(&self, node: &K) -> Option<(&WeakNode<K, N, E>, &E)> {
+        for edge in self.inbound.iter() {
+            if edge.0.upgrade().unwrap().key() == node {
+                return Some((&edge.0, &self.inbound[0].1));""", [['C02', 'ADJ-PRIM']])
+
 # ---- benign edits: behaviour-preserving, every check must stay silent
 B = []
 
